@@ -54,48 +54,174 @@ theorem ERel.extras {md : Bool} {env : Env} {genv : GEnv} (he : ERel md env genv
     subst hq
     exact .extra (isReserved_pName j) (ih i (fun q' hq' => hX q' (List.mem_cons_of_mem _ hq')))
 
+theorem isRName_pName (i : Nat) : isRName (pName i) = false := by
+  simp [isRName, pName_toList]
+
+theorem restNames_not_contains {x : String} (h : isRName x = false) (m : Nat) : (restNames m).contains x = false := by
+  cases hc : (restNames m).contains x with
+  | false => rfl
+  | true =>
+    simp only [restNames, List.contains_iff_mem, List.mem_map, List.mem_range] at hc
+    obtain ⟨j, _, hj⟩ := hc
+    rw [← hj, isRName_restName] at h
+    cases h
+
+theorem isInertL_cons {a : Expr} {as : List Expr} : isInertL (a :: as) = (isInert a && isInertL as) := by
+  rw [isInertL]
+
+theorem paArgs_inert : ∀ (i : Nat) (args : List Expr) (gs : List GExpr), isInertL args = true → args.length = gs.length →
+    paArgs i args gs = (gs, [])
+  | _, [], [], _, _ => rfl
+  | _, [], _ :: _, _, h => by simp at h
+  | _, _ :: _, [], _, h => by simp at h
+  | i, a :: as, g :: gs, hin, hl => by
+    rw [isInertL_cons, Bool.and_eq_true] at hin
+    have ih := paArgs_inert (i + 1) as gs hin.2 (by simpa using hl)
+    simp only [paArgs, hin.1, if_true, ih]
+
+theorem lowerL_length (md : Bool) : ∀ (es : List Expr), (lowerL md es).length = es.length
+  | [] => rfl
+  | e :: es => by simp [lowerL, lowerL_length md es]
+
+theorem isInert_prim {p : Prim} {args : List Expr} (h : isInert (.prim p args) = true) :
+    ∃ f x, p = .fld f ∧ args = [.var x] := by
+  unfold isInert at h
+  split at h
+  · rename_i heq; cases heq
+  · rename_i heq; cases heq
+  · rename_i heq; cases heq; exact ⟨_, _, rfl, rfl⟩
+  · rename_i heq; cases heq
+  · rename_i heq; cases heq
+  · cases h
+
+/-- an inert argument evaluates without output, to the value the closure will see whenever it
+evaluates the lowered argument again: a literal, a variable, a field of a variable, a lambda (a closure
+over the environment), a partial application of inert arguments (again a closure) -/
+theorem sim_inert : ∀ (n : Nat) {a : Expr} {env : Env} {t : Trace} {v : SVal},
+    (evalN P n).expr env a = some (t, v) → isInert a = true → wfE true a = true →
+    ∀ (m : Nat) {genv : GEnv}, ERel true env genv →
+      t = [] ∧ ∃ gv, gpureEvalN n genv (lowerE true a) = some gv ∧ VRel true v gv ∧
+        isGAtom (restNames m) (lowerE true a) = true := by
+  intro n
+  induction n with
+  | zero => intro a env t v h; simp [evalN] at h
+  | succ k ih =>
+    have hlist : ∀ {es : List Expr} {env : Env} {t : Trace} {vs : List SVal},
+        evalList (evalN P k).expr env es = some (t, vs) → isInertL es = true → wfL true es = true →
+        ∀ (m : Nat) {genv : GEnv}, ERel true env genv →
+          t = [] ∧ ∃ gvs, optList (gpureEvalN k genv) (lowerL true es) = some gvs ∧ VRels true vs gvs ∧
+            isGAtomL (restNames m) (lowerL true es) = true := by
+      intro es
+      induction es with
+      | nil =>
+        intro env t vs h _ _ m genv _
+        simp [evalList, Res.pure] at h
+        obtain ⟨rfl, rfl⟩ := h
+        exact ⟨rfl, [], rfl, .nil, rfl⟩
+      | cons e es ihl =>
+        intro env t vs h hin hw m genv he
+        rw [isInertL_cons, Bool.and_eq_true] at hin
+        simp only [wfL, Bool.and_eq_true] at hw
+        simp only [evalList] at h
+        obtain ⟨t1, v, t2, h1, h2, rfl⟩ := Res.bind_eq_some.mp h
+        obtain ⟨t3, vs', t4, h3, h4, rfl⟩ := Res.bind_eq_some.mp h2
+        obtain ⟨rfl, rfl⟩ := Res.pure_eq_some.mp h4
+        obtain ⟨rfl, gv, hg1, hr1, hp1⟩ := ih h1 hin.1 hw.1 m he
+        obtain ⟨rfl, gvs, hg2, hr2, hp2⟩ := ihl h3 hin.2 hw.2 m he
+        refine ⟨rfl, gv :: gvs, ?_, .cons hr1 hr2, ?_⟩
+        · simp [lowerL, optList, hg1, hg2]
+        · simp [lowerL, isGAtomL, hp1, hp2]
+    intro a env t v h hin hw m genv he
+    -- the first-order forms are pure
+    have hpureCase : isPureFor (restNames m) a = true →
+        t = [] ∧ ∃ gv, gpureEvalN (k + 1) genv (lowerE true a) = some gv ∧ VRel true v gv ∧
+          isGPureFor (restNames m) (lowerE true a) = true := fun hp => sim_pure (restNames m) (k + 1) h hp hw he
+    have hstep : stepExpr (evalN P k) P env a = some (t, v) := h
+    cases a with
+    | lit l =>
+      obtain ⟨ht, gv, hg, hr, hp⟩ := hpureCase rfl
+      exact ⟨ht, gv, hg, hr, by simpa [lowerE, isGAtom] using hp⟩
+    | var x =>
+      have hnr : isReserved x = false := by simpa [wfE] using hw
+      have hc := restNames_not_contains (isRName_of_not_reserved hnr) m
+      obtain ⟨ht, gv, hg, hr, hp⟩ := hpureCase (by simpa [isPureFor] using hc)
+      exact ⟨ht, gv, hg, hr, by simpa [lowerE, isGAtom] using hp⟩
+    | prim p args =>
+      obtain ⟨f, x, rfl, rfl⟩ := isInert_prim hin
+      have hnr : isReserved x = false := by simpa [wfE, wfL] using hw
+      have hc := restNames_not_contains (isRName_of_not_reserved hnr) m
+      obtain ⟨ht, gv, hg, hr, hp⟩ := hpureCase (by simpa [isPureFor, isPureForL, isSilentPrim] using hc)
+      exact ⟨ht, gv, hg, hr, by simpa [lowerE, lowerL, isGAtom] using hp⟩
+    | lam ps b =>
+      simp only [stepExpr, Res.pure, Option.some.injEq, Prod.mk.injEq] at hstep
+      obtain ⟨rfl, rfl⟩ := hstep
+      have hwb : wfB true b = true := by simpa [wfE] using hw
+      exact ⟨rfl, .clo ps (lowerB true b) genv, by simp [lowerE, gpureEvalN], .clo hwb he, by simp [lowerE, isGAtom]⟩
+    | call f arity args =>
+      have hin' : args.length < arity ∧ isInertL args = true := by
+        have := hin
+        rw [isInert] at this
+        simpa using this
+      have hwl : wfL true args = true := by
+        have := hw
+        simp only [wfE, Bool.and_eq_true] at this
+        exact this.1
+      simp only [stepExpr] at hstep
+      obtain ⟨t1, vs, t2, h1, h2, rfl⟩ := Res.bind_eq_some.mp hstep
+      have hlen : vs.length = args.length := evalList_length h1
+      have hlt : vs.length < arity := by omega
+      simp only [hlt, if_true] at h2
+      obtain ⟨rfl, rfl⟩ := Res.pure_eq_some.mp h2
+      obtain ⟨rfl, gvs, hga, hrv, hall⟩ := hlist h1 hin'.2 hwl (arity - vs.length) he
+      have hpa := paArgs_inert 0 args (lowerL true args) hin'.2 (lowerL_length true args).symm
+      refine ⟨rfl, .clo (restNames (arity - args.length))
+        (.mk [] (.ret (.callFn f (lowerL true args ++ (restNames (arity - args.length)).map GExpr.var)))) genv, ?_, ?_, ?_⟩
+      · simp [lowerE, hin'.1, hpa, gpureEvalN]
+      · rw [← hlen]
+        exact VRel.pap hlt hga hrv hall
+      · simp [lowerE, hin'.1, hpa, isGAtom]
+    | _ => simp [isInert] at hin
+
 /-- the given arguments of a partial application, from position `i`: running the bindings produces the
 output of evaluating the arguments in order, and afterwards the atoms the closure mentions evaluate,
 without output, to values related to the arguments' values -/
-theorem sim_paArgs (ih : SimAt true P n) (rs : List String) (hrs : ∀ i, rs.contains (pName i) = false) : ∀ (args : List Expr) (i : Nat) {env : Env} {t : Trace} {vs : List SVal},
-    evalList (evalN P n).expr env args = some (t, vs) → wfL true args = true → paOK rs args = true →
+theorem sim_paArgs (ih : SimAt true P n) (mr : Nat) : ∀ (args : List Expr) (i : Nat) {env : Env} {t : Trace} {vs : List SVal},
+    evalList (evalN P n).expr env args = some (t, vs) → wfL true args = true →
     ∀ {genv : GEnv}, ERel true env genv →
       ∃ m X gvs, PExtras i X ∧
         grunStmts (gevalN (lowerProg true P) m) genv (paArgs i args (lowerL true args)).2 = some (t, X ++ genv) ∧
         optList (gpureEvalN n (X ++ genv)) (paArgs i args (lowerL true args)).1 = some gvs ∧ VRels true vs gvs ∧
-        isGPureForL rs (paArgs i args (lowerL true args)).1 = true := by
+        isGAtomL (restNames mr) (paArgs i args (lowerL true args)).1 = true := by
   intro args
   induction args with
   | nil =>
-    intro i env t vs h _ _ genv _
+    intro i env t vs h _ genv _
     simp [evalList, Res.pure] at h
     obtain ⟨rfl, rfl⟩ := h
     refine ⟨0, [], [], ?_, rfl, rfl, VRels.nil, rfl⟩
     intro q hq; cases hq
   | cons a as iha =>
-    intro i env t vs h hw hok genv he
+    intro i env t vs h hw genv he
     simp only [wfL, Bool.and_eq_true] at hw
-    simp only [paOK, Bool.and_eq_true] at hok
     simp only [evalList] at h
     obtain ⟨t1, v, t2, h1, h2, rfl⟩ := Res.bind_eq_some.mp h
     obtain ⟨t3, vs', t4, h3, h4, rfl⟩ := Res.bind_eq_some.mp h2
     obtain ⟨rfl, rfl⟩ := Res.pure_eq_some.mp h4
     by_cases hin : isInert a = true
     · -- an inert argument stays inside the closure: no output now, same value later
-      have hpure : isPureFor rs a = true := by simpa [hin] using hok.1
-      obtain ⟨m, X, gvs, hX, hrun, hat, hrel, hgp⟩ := iha (i + 1) h3 hw.2 hok.2 he
+      obtain ⟨m, X, gvs, hX, hrun, hat, hrel, hgp⟩ := iha (i + 1) h3 hw.2 he
       have heX := ERel.extras he X (i + 1) hX
-      obtain ⟨rfl, gv, hg1, hr1, hp1⟩ := sim_pure rs n h1 hpure hw.1 heX
+      obtain ⟨rfl, gv, hg1, hr1, hp1⟩ := sim_inert n h1 hin hw.1 mr heX
       refine ⟨m, X, gv :: gvs, fun q hq => ?_, ?_, ?_, .cons hr1 hrel, ?_⟩
       · obtain ⟨j, hj, hqj⟩ := hX q hq; exact ⟨j, by omega, hqj⟩
       · simpa [lowerL, paArgs, hin] using hrun
       · simp [lowerL, paArgs, hin, optList, hg1, hat]
-      · simp [lowerL, paArgs, hin, isGPureForL, hp1, hgp]
+      · simp [lowerL, paArgs, hin, isGAtomL, hp1, hgp]
     · -- any other argument is evaluated now and bound to `_p i`
       have hin' : isInert a = false := by simpa using hin
       obtain ⟨m1, gv, hg1, hr1⟩ := ih.expr h1 hw.1 he
       have he1 : ERel true env ((pName i, gv) :: genv) := .extra (isReserved_pName i) he
-      obtain ⟨m2, X, gvs, hX, hrun, hat, hrel, hgp⟩ := iha (i + 1) h3 hw.2 hok.2 he1
+      obtain ⟨m2, X, gvs, hX, hrun, hat, hrel, hgp⟩ := iha (i + 1) h3 hw.2 he1
       have hn : 0 < n := by
         cases n with
         | zero => simp [evalN] at h1
@@ -118,8 +244,8 @@ theorem sim_paArgs (ih : SimAt true P n) (rs : List String) (hrs : ∀ i, rs.con
           simp only [lowerL, paArgs, hin', Bool.false_eq_true, if_false, optList, gpureEvalN, hlook]
           simp only [List.append_assoc, List.singleton_append] at hat ⊢
           rw [hat]
-      · simp only [lowerL, paArgs, hin', Bool.false_eq_true, if_false, isGPureForL, isGPureFor, hrs i,
-          Bool.not_false, Bool.true_and]
+      · simp only [lowerL, paArgs, hin', Bool.false_eq_true, if_false, isGAtomL, isGAtom, isGPureFor,
+          pName_not_rest i mr, isRName_pName i, Bool.not_false, Bool.and_self, Bool.true_and]
         exact hgp
 
 end Folang.Sem
